@@ -195,6 +195,12 @@ class Module:
                 for t in st.targets:
                     if isinstance(t, ast.Name):
                         self.assigns[t.id] = st.value
+                    elif isinstance(t, ast.Attribute) and isinstance(t.value, ast.Name) and t.value.id in self.classes:
+                        # `K.TABLE = ...` after the class body (a table that refers to the class itself): a class attribute
+                        # whose expression is written in the module's scope
+                        k_ = self.classes[t.value.id]
+                        k_.assigns.setdefault(t.attr, st.value)
+                        k_.__dict__.setdefault("module_level_assigns", set()).add(t.attr)
                     elif isinstance(t, ast.Tuple) and isinstance(st.value, ast.Tuple) and len(t.elts) == len(st.value.elts):
                         for tt, vv in zip(t.elts, st.value.elts):
                             if isinstance(tt, ast.Name):
